@@ -233,7 +233,9 @@ Fixpoint descend (t : ty) (seg : string) : option position :=
       | Some (vi, fs) =>
           match vi_style vi, fs with
           | VsNewtype, (_, ft) :: _ => Some (PTy ft)
-          | _, _ => Some (PFields fs)
+          | _, _ =>
+              (* a struct variant is a struct level of its own: own fields, and the names of its flatten members *)
+              Some (PTy (TStructR (mkCI (vi_ident vi) None None (vi_auk vi) None None) fs))
           end
       | None => None
       end
